@@ -48,3 +48,42 @@ def determinism(props, tier, verif_seed, n=40):
               f"{len(mism)} digest mismatches {mism[:5]}")
         bad += bool(mism)
     return 0 if not bad else 2
+
+
+def soak(rest, tier, verif_seed, props):
+    """./check soak <minutes> [ids...]: run the checks over and over with fresh VERIF_SEEDs until the time is used up;
+    reports go to .work/soak (never to the official evidence); any VIOLATION / HARNESS-ERROR line is echoed"""
+    import subprocess
+    import time
+    minutes = float(rest[0]) if rest else 30
+    ids = [r.upper() for r in rest[1:]] or props
+    t_end = time.time() + minutes * 60
+    seed = verif_seed + 1000
+    ev = os.path.join(env.VERIF_DIR, ".work", "soak")
+    os.makedirs(ev, exist_ok=True)
+    totals = {p: [0, 0] for p in ids}
+    bad = 0
+    while time.time() < t_end:
+        for p in ids:
+            if time.time() >= t_end:
+                break
+            e = env.child_env(VERIF_SEED=seed, VERIF_EVIDENCE_DIR=ev)
+            logf = os.path.join(ev, f"{p}-{seed}.log")
+            with open(logf, "w") as lf:
+                rc = subprocess.run([os.path.join(env.VERIF_DIR, "check"), p, "--tier", tier], stdout=lf, stderr=subprocess.STDOUT, env=e,
+                                    cwd=env.VERIF_DIR).returncode
+            txt = open(logf).read()
+            totals[p][0] += 1
+            if rc != 0:
+                bad += 1
+                totals[p][1] += 1
+                print(f"seed {seed} {p} exit {rc}")
+                for l in txt.splitlines():
+                    if l.startswith(("VIOLATION", "  key=", "HARNESS", "KNOWN")):
+                        print("   " + l[:300])
+                sys.stdout.flush()
+            else:
+                os.remove(logf)
+        seed += 1
+    print("soak summary (runs, non-zero exits):", totals)
+    return 0 if not bad else 1
